@@ -663,7 +663,8 @@ fn extract<'tcx>(tcx: TyCtxt<'tcx>) -> J {
                 let t = tcx.type_of(def_id).instantiate_identity().skip_norm_wip();
                 let mut c = J::obj();
                 c.put("ty", J::s(&format!("{}", t)));
-                if matches!(t.kind(), ty::Int(_) | ty::Uint(_) | ty::Bool) && tcx.generics_of(def_id).is_empty() {
+                if matches!(t.kind(), ty::Int(_) | ty::Uint(_) | ty::Bool) {
+                    // associated constants of generic impls too: evaluation fails (TooGeneric) only when the value depends on a parameter
                     if let Ok(val) = tcx.const_eval_poly(def_id) {
                         if let Some(si) = val.try_to_scalar_int() {
                             let size = si.size();
